@@ -92,16 +92,18 @@ theorem updFirst_lookup (value : Str) : ∀ (defs : List MacroDef) (name : Str),
 
 /-! ## invocation cases of `macros.render` -/
 
-/-- **An escaped invocation is left as written**, without the backslash. -/
+/-- **An escaped invocation is left as written**, without the backslash; in the silent pass of a line macro, whose
+    result is read and rendered again, with the backslash still in place (F40: it is that second rendering which
+    leaves it as written). -/
 theorem escaped_invocation (rec : Rec) (env : Env) (text : Str) (silent simple : Bool) (mt : Match) (body : Str)
     (s : Session) (h : mt.whole = '\\' :: body) :
-    (macroRepl rec env text silent simple mt).run s = .ok (body, s) := by
+    (macroRepl rec env text silent simple mt).run s = .ok (if silent then '\\' :: body else body, s) := by
   have hsw : startsWith ('\\' :: body) "\\".toList = true := by
     show ('\\' == '\\' && startsWith body []) = true
     cases body <;> rfl
   unfold macroRepl
   simp only [h, hsw, if_true]
-  rfl
+  cases silent <;> rfl
 
 /-- **A simple invocation of a defined macro is replaced by its value**; **an undefined one is left as written,
     with a diagnostic** unless the pass is silent. -/
